@@ -23,7 +23,7 @@ def scratch_copy():
     t = tempfile.mkdtemp(prefix="vfmut-")
     dst = os.path.join(t, "repo")
     os.makedirs(dst)
-    files = subprocess.check_output(["git", "-C", "/repo", "ls-files"], text=True).split("\n")
+    files = subprocess.check_output(["git", "-C", "/repo", "ls-files"], text=True).split("\n") + ["Cargo.lock"]
     for f in files:
         if not f:
             continue
@@ -66,7 +66,7 @@ def run_one(m):
             r = subprocess.run([os.path.join(VERIF, "vf"), "check", prop, "--tier", m.get("tier", "quick")], cwd=VERIF, env=env, stdout=subprocess.PIPE, stderr=subprocess.STDOUT, text=True)
             out = r.stdout
             outs.append(out)
-            if "does not compile" in out:
+            if "current tree does not compile in configuration" in out or "rust_cc_derive does not compile" in out:
                 return m["name"], "NOCOMPILE", out[-1500:]
             rules = re.findall(r"rule=(\S+)", out)
             if r.returncode == 1 and any(any(exp in ru for exp in m["expect"]) for ru in rules):
